@@ -118,28 +118,59 @@ func ruleC07Count(c *Ctx) {
 				continue
 			}
 			nRet++
-			maySucceed := false
-			for _, v := range c.resultValues(ret, len(ret.Results)-1) {
-				if isNilConst(v) {
-					maySucceed = true
-					continue
-				}
-				known := false
+			// an error path: some error is known to be non-nil here, or the
+			// value returned is one
+			onErrorPath := false
+			nonNilHere := func(v ssa.Value) bool {
 				for _, f := range factsAt(ret.Block()) {
 					cond, truth := normCond(f.Cond, f.Truth)
 					if m, isNil := errNilFact(cond, truth, v); m && !isNil {
-						known = true
+						return true
 					}
 				}
-				if !known {
-					if _, isCall := v.(*ssa.Call); isCall {
-						known = true // `return x, wrap(err)`: a constructed error
-					}
-					if _, isMI := v.(*ssa.MakeInterface); isMI {
-						known = true
-					}
+				return false
+			}
+			for _, f := range factsAt(ret.Block()) {
+				cond, truth := normCond(f.Cond, f.Truth)
+				if cmp, ok := isCmp(cond, token.EQL, token.NEQ); ok && isErrorType(cmp.X.Type()) && isNilConst(cmp.Y) && (cmp.Op == token.NEQ) == truth {
+					onErrorPath = true
 				}
-				if !known {
+			}
+			var errorish func(v ssa.Value, depth int) bool
+			errorish = func(v ssa.Value, depth int) bool {
+				if depth > 4 || isNilConst(v) {
+					return false
+				}
+				if nonNilHere(v) {
+					return true
+				}
+				switch x := v.(type) {
+				case *ssa.MakeInterface:
+					return true
+				case *ssa.Call:
+					if q := calleeQ(&x.Call); q == "errors.New" || q == "fmt.Errorf" {
+						return true
+					}
+					for _, a := range x.Call.Args {
+						if isErrorType(a.Type()) && errorish(a, depth+1) {
+							return true
+						}
+					}
+				case *ssa.Extract:
+					return errorish(x.Tuple, depth+1)
+				case *ssa.Phi:
+					for _, e := range x.Edges {
+						if !errorish(e, depth+1) {
+							return false
+						}
+					}
+					return true
+				}
+				return false
+			}
+			maySucceed := false
+			for _, v := range c.resultValues(ret, len(ret.Results)-1) {
+				if !onErrorPath && !errorish(v, 0) {
 					maySucceed = true
 				}
 			}
@@ -208,7 +239,7 @@ func (c *Ctx) checkCollect(rule string) {
 	okFields := map[string]bool{}
 	var catCall *ssa.Call
 	allInstrs(collect, func(in ssa.Instruction) {
-		if call, ok := in.(*ssa.Call); ok && call.Call.IsInvoke() && call.Call.Method.Name() == "Categorize" {
+		if call, ok := in.(*ssa.Call); ok && call.Call.IsInvoke() && mname(call.Call.Method) == "Categorize" {
 			catCall = call
 		}
 	})
@@ -229,7 +260,7 @@ func (c *Ctx) checkCollect(rule string) {
 			return
 		}
 		fi := fieldOfAddr(fa)
-		if fi.Struct == nil || fi.Struct.Obj().Name() != "RefRoot" {
+		if fi.Struct == nil || tname(fi.Struct.Obj()) != "RefRoot" {
 			return
 		}
 		v := c.resolve(st.Val)
@@ -282,7 +313,7 @@ func (c *Ctx) loopOverParam(l *loop, f *ssa.Function) bool {
 func ruleC07Ignored(c *Ctx) {
 	n := 0
 	for _, f := range c.ModFns {
-		if f.Name() != "Categorize" || pkgOf(f) != modPath+"/internal/refopts" {
+		if refName(f) != "Categorize" || pkgOf(f) != modPath+"/internal/refopts" {
 			continue
 		}
 		// the collecting call: a static call returning (bool, []RefGroupSymbol)
@@ -298,7 +329,7 @@ func ruleC07Ignored(c *Ctx) {
 			// a wrapper (e.g. --show-refs) that delegates: it must hand the delegate's verdict and symbols through unchanged
 			var deleg *ssa.Call
 			allInstrs(f, func(in ssa.Instruction) {
-				if call, ok := in.(*ssa.Call); ok && call.Call.IsInvoke() && call.Call.Method.Name() == "Categorize" {
+				if call, ok := in.(*ssa.Call); ok && call.Call.IsInvoke() && mname(call.Call.Method) == "Categorize" {
 					deleg = call
 				}
 			})
@@ -385,7 +416,7 @@ func (c *Ctx) checkCollector(f *ssa.Function) {
 		}
 		filterFalse := guardedBy(ret.Block(), func(cond ssa.Value, truth bool) bool {
 			call, ok := cond.(*ssa.Call)
-			return ok && !truth && call.Call.IsInvoke() && call.Call.Method.Name() == "Filter"
+			return ok && !truth && call.Call.IsInvoke() && mname(call.Call.Method) == "Filter"
 		})
 		if !filterFalse {
 			continue
@@ -479,7 +510,7 @@ func ruleC07Symbols(c *Ctx) {
 	indented := false
 	allInstrs(contents, func(in ssa.Instruction) {
 		call, ok := in.(*ssa.Call)
-		if !ok || call.Call.StaticCallee() == nil || call.Call.StaticCallee().Name() != "Indented" {
+		if !ok || call.Call.StaticCallee() == nil || refName(call.Call.StaticCallee()) != "Indented" {
 			return
 		}
 		if cnt, ok := c.resolve(call.Call.Args[1]).(*ssa.Call); ok && calleeQ(&cnt.Call) == "strings.Count" {
@@ -524,7 +555,7 @@ func historyFieldTag(c *Ctx, v ssa.Value) string {
 		return ""
 	}
 	fi := fieldOfAddr(fa)
-	if fi.Struct == nil || fi.Struct.Obj().Name() != "HistorySize" {
+	if fi.Struct == nil || tname(fi.Struct.Obj()) != "HistorySize" {
 		return ""
 	}
 	return fi.Tag
@@ -583,13 +614,13 @@ func ruleC08Pairing(c *Ctx) {
 				return
 			}
 			call, ok := st.Val.(*ssa.Call)
-			if !ok || !call.Call.IsInvoke() || call.Call.Method.Name() != "RequestPath" {
+			if !ok || !call.Call.IsInvoke() || mname(call.Call.Method) != "RequestPath" {
 				return
 			}
 			// the previous path must be forgotten first (if non-nil), as in the setter
 			forgot := false
 			allInstrs(f, func(in2 ssa.Instruction) {
-				if fc, ok := in2.(*ssa.Call); ok && fc.Call.IsInvoke() && fc.Call.Method.Name() == "ForgetPath" && instrDominatesOrGuards(fc, call) {
+				if fc, ok := in2.(*ssa.Call); ok && fc.Call.IsInvoke() && mname(fc.Call.Method) == "ForgetPath" && instrDominatesOrGuards(fc, call) {
 					if historyFieldTag(c, fc.Call.Args[0]) == historyFieldTag(c, fa) {
 						forgot = true
 					}
@@ -619,7 +650,7 @@ func ruleC08Pairing(c *Ctx) {
 				return false
 			}
 			cal := call.Call.StaticCallee()
-			if cal == nil || pkgOf(cal) != modPath+"/counts" || !strings.HasPrefix(cal.Name(), "AdjustMax") {
+			if cal == nil || pkgOf(cal) != modPath+"/counts" || !strings.HasPrefix(refName(cal), "AdjustMax") {
 				return false
 			}
 			t := historyFieldTag(c, call.Call.Args[0])
@@ -678,7 +709,7 @@ func (c *Ctx) checkSetter(set *ssa.Function) {
 		if !ok || !call.Call.IsInvoke() {
 			return
 		}
-		switch call.Call.Method.Name() {
+		switch mname(call.Call.Method) {
 		case "ForgetPath":
 			forget = call
 		case "RequestPath":
@@ -912,7 +943,7 @@ func ruleC08ParentKind(c *Ctx) {
 	want := map[string]string{"RecordCommit": "commit", "RecordTreeEntry": "tree"}
 	n := 0
 	for _, f := range c.ModFns {
-		kind, ok := want[f.Name()]
+		kind, ok := want[refName(f)]
 		if !ok || pkgOf(f) != modPath+"/sizes" || f.Signature.Recv() == nil {
 			continue
 		}
@@ -1006,13 +1037,13 @@ func ruleC08RootPrefix(c *Ctx) {
 					s.f[i] = aSym("OID")
 				default:
 					if b, ok := fv.Type().Underlying().(*types.Basic); ok && b.Kind() == types.String {
-						if strings.Contains(strings.ToLower(fv.Name()), "type") {
+						if strings.Contains(strings.ToLower(vname(fv)), "type") {
 							s.f[i] = aConst{constant.MakeString(kind), fv.Type()}
 						} else {
 							s.f[i] = aSym("NAME")
 						}
 					} else {
-						s.f[i] = aSym("p." + fv.Name())
+						s.f[i] = aSym("p." + vname(fv))
 					}
 				}
 			}
@@ -1021,6 +1052,23 @@ func ruleC08RootPrefix(c *Ctx) {
 		sums := map[string]aSummary{
 			modQ("/git", "OID", "String"): func(fr *aFrame, args []aVal) (aVal, bool) { return aSym("HEX(" + aShow(args[0]) + ")"), true },
 		}
+		// a module function string -> int applied to the name: the position
+		// of the colon that separates <rev> from <path> (checked below)
+		var sepFns []*ssa.Function
+		allInstrs(f, func(in ssa.Instruction) {
+			if call, ok := in.(*ssa.Call); ok {
+				g := call.Call.StaticCallee()
+				if g == nil || !c.inRuleScope(g) || g.Signature.Params().Len() != 1 || g.Signature.Results().Len() != 1 {
+					return
+				}
+				pb, ok1 := g.Signature.Params().At(0).Type().Underlying().(*types.Basic)
+				rb, ok2 := g.Signature.Results().At(0).Type().Underlying().(*types.Basic)
+				if ok1 && ok2 && pb.Kind() == types.String && rb.Kind() == types.Int {
+					sums[refQ(g)] = func(fr *aFrame, args []aVal) (aVal, bool) { return aSym("SEP(" + aShow(args[0]) + ")"), true }
+					sepFns = append(sepFns, g)
+				}
+			}
+		})
 		rows := aEnumerate(nil, func(e *aEnv) aVal { return c.aCall(f, []aVal{mk()}, e, 0, sums) })
 		bad := ""
 		named := 0
@@ -1038,6 +1086,42 @@ func ruleC08RootPrefix(c *Ctx) {
 			if !hasName {
 				named++
 				// the name may itself be of the form <rev>:<path> (ROOT `master:dir`): then the path simply continues
+				if kind == "tree" {
+					// decided on the position of the colon that separates <rev> from <path>
+					var sepX string
+					for a := range r.Atoms {
+						if strings.HasPrefix(a, "[-1 == ") {
+							sepX = strings.TrimSuffix(strings.TrimPrefix(a, "[-1 == "), "]")
+						}
+					}
+					if sepX == "" {
+						if hs, asked := r.Atoms[`strings.HasSuffix(NAME,":")`]; asked && hs {
+							bad = "a tree is taken to be named `<rev>:` whenever its name ends in ':': ROOT `HEAD:notes:` (a directory called `notes:`) has its entries described as HEAD:notes:<entry> instead of HEAD:notes:/<entry>, which git does not resolve"
+						} else if bad == "" {
+							bad = "the prefix of a tree that a root names directly is not decided on the position of the colon separating <rev> from <path>: " + r.String()
+						}
+						continue
+					}
+					NOSEP, LAST, SL := "[-1 == "+sepX+"]", "[(len(NAME) - 1) == "+sepX+"]", `strings.HasSuffix(NAME,"/")`
+					one := []aRow{{Atoms: map[string]bool{}, Result: r.Result}}
+					for a, v := range r.Atoms {
+						if a != `["" == NAME]` {
+							one[0].Atoms[a] = v
+						}
+					}
+					if msg := checkTable(one, []string{NOSEP, LAST, SL}, func(a map[string]bool) string {
+						switch {
+						case a[NOSEP]:
+							return `(NAME + ":")`
+						case a[LAST], a[SL]:
+							return "NAME"
+						}
+						return `(NAME + "/")`
+					}); msg != "" {
+						bad = "a tree named by a root: " + msg
+					}
+					continue
+				}
 				ct, askedCT := r.Atoms[`strings.Contains(NAME,":")`]
 				hs, askedHS := r.Atoms[`strings.HasSuffix(NAME,":")`]
 				sl, askedSL := r.Atoms[`strings.HasSuffix(NAME,"/")`]
@@ -1075,6 +1159,47 @@ func ruleC08RootPrefix(c *Ctx) {
 			bad = "no case for a " + kind + " named directly by a root"
 		}
 		c.judge("C08.root-prefix", kind, f, bad, rows, "parentless "+kind+" named by a root ⇒ NAME: for a plain tree-ish (NAME/ only when the name already is <rev>:<path>)")
+		if kind != "tree" {
+			continue
+		}
+		for _, g := range sepFns {
+			c.checkSeparatorFn(g)
+		}
+		// a tree reached through an entry of its parent tree: the parent's
+		// prefix, the entry's name and '/', whatever the name looks like (the
+		// rules about ':' apply to root names only; a directory may be
+		// called `notes:`)
+		mkChild := func() aVal {
+			child := mk().(aPtr)
+			cs := child.cell.v.(aStruct)
+			for i := 0; i < st.NumFields(); i++ {
+				if isPtrToNamed(st.Field(i).Type(), modPath+"/sizes", "Path") {
+					cs.f[i] = mk()
+				}
+			}
+			return child
+		}
+		rows = aEnumerate(nil, func(e *aEnv) aVal { return c.aCall(f, []aVal{mkChild()}, e, 0, sums) })
+		bad = ""
+		for _, r := range rows {
+			if len(r.Undec) > 0 {
+				bad = "UNDECIDED " + strings.Join(r.Undec, "; ")
+				continue
+			}
+			empty, asked := r.Atoms[`["" == NAME]`]
+			got := aShow(r.Result)
+			switch {
+			case !asked:
+				bad = "the prefix of a tree below another tree does not depend on whether it is the top-level tree of a commit: " + r.String()
+			case len(r.Atoms) != 1:
+				bad = "the prefix of a tree reached through a tree entry depends on the form of the entry's name: " + r.String()
+			case empty && !(strings.HasSuffix(got, ".TreePrefix(&cell)") && !strings.Contains(got, " + ")):
+				bad = "the top-level tree of a commit does not take over the commit's prefix: " + r.String()
+			case !empty && !(strings.HasPrefix(got, "((") && strings.HasSuffix(got, `.TreePrefix(&cell) + NAME) + "/")`) && strings.Count(got, " + ") == 2):
+				bad = "entries below a subtree are not described as <parent prefix><name>/…: " + r.String()
+			}
+		}
+		c.judge("C08.root-prefix", "entry", f, bad, rows, "tree below a tree ⇒ parent's prefix + entry name + '/', unconditionally")
 	}
 }
 
@@ -1239,7 +1364,7 @@ func ruleC07IgnoredGroup(c *Ctx) {
 				return
 			}
 			// the field Categorize falls back to when nothing matched: by role, a *sizes.RefGroup field of the grouper itself
-			if n := namedOf(fieldOfAddr(fa).Struct); n == nil || !strings.Contains(strings.ToLower(n.Obj().Name()), "grouper") {
+			if n := namedOf(fieldOfAddr(fa).Struct); n == nil || !strings.Contains(strings.ToLower(tname(n.Obj())), "grouper") {
 				return
 			}
 			stores = append(stores, st)
@@ -1369,11 +1494,11 @@ func ruleC08RootName(c *Ctx) {
 				return
 			}
 			n++
-			key := "root-name:" + fnName(f) + ":" + fieldOfAddr(fa).Var.Name()
+			key := "root-name:" + fnName(f) + ":" + vname(fieldOfAddr(fa).Var)
 			if _, isParam := c.resolve(st.Val).(*ssa.Parameter); isParam {
 				c.hold("C08.root-prefix", key, st.Pos(), "stored as given")
 			} else {
-				c.violate("C08.root-prefix", key, st.Pos(), fnName(f), "the explicit root's "+fieldOfAddr(fa).Var.Name()+" is not stored as given: `main:` (a tree) described as `main` resolves to the commit, not to the cited object")
+				c.violate("C08.root-prefix", key, st.Pos(), fnName(f), "the explicit root's "+vname(fieldOfAddr(fa).Var)+" is not stored as given: `main:` (a tree) described as `main` resolves to the commit, not to the cited object")
 			}
 		})
 	}
@@ -1399,7 +1524,7 @@ func ruleC08NameBeforeFinalize(c *Ctx) {
 			}
 			var rec []ssa.Instruction
 			allInstrs(fn, func(in ssa.Instruction) {
-				if call, ok := in.(*ssa.Call); ok && call.Call.IsInvoke() && call.Call.Method.Name() == "RecordTreeEntry" {
+				if call, ok := in.(*ssa.Call); ok && call.Call.IsInvoke() && mname(call.Call.Method) == "RecordTreeEntry" {
 					rec = append(rec, call)
 				}
 			})
@@ -1440,7 +1565,7 @@ func ruleC08NameBeforeFinalize(c *Ctx) {
 func ruleC08TagReferent(c *Ctx) {
 	n := 0
 	for _, f := range c.ModFns {
-		if f.Name() != "RecordTag" || pkgOf(f) != modPath+"/sizes" || f.Signature.Recv() == nil || f.Parent() != nil {
+		if refName(f) != "RecordTag" || pkgOf(f) != modPath+"/sizes" || f.Signature.Recv() == nil || f.Parent() != nil {
 			continue
 		}
 		// only the resolver that hands out descriptions (it has a table of sought paths)
@@ -1478,5 +1603,61 @@ func ruleC08TagReferent(c *Ctx) {
 	}
 	if n == 0 {
 		c.notDecided("C08.tag-referent", "resolver", token.NoPos, "no path resolver with a RecordTag method and a table of sought paths found")
+	}
+}
+
+// checkSeparatorFn: the function that finds the colon between <rev> and
+// <path> returns -1 or a position at which the name has a ':' (outside
+// braces, as git reads `HEAD^{/fix: x}:dir`).
+func (c *Ctx) checkSeparatorFn(g *ssa.Function) {
+	const rule = "C08.root-prefix"
+	key := "separator:" + g.Name()
+	if len(g.Params) != 1 {
+		return
+	}
+	name := g.Params[0]
+	bad, braces := "", true
+	n := 0
+	for _, ret := range returnsOf(g) {
+		v := ret.Results[0]
+		if k, ok := constInt(v); ok && k == -1 {
+			continue
+		}
+		n++
+		colon, depth0 := false, false
+		for _, f := range factsAt(ret.Block()) {
+			cond, truth := normCond(f.Cond, f.Truth)
+			cmp, ok := cond.(*ssa.BinOp)
+			if !ok || (cmp.Op == token.EQL) != truth || (cmp.Op != token.EQL && cmp.Op != token.NEQ) {
+				continue
+			}
+			if k, isK := constInt(cmp.Y); isK {
+				if lk, isLk := cmp.X.(*ssa.Lookup); isLk && lk.X == ssa.Value(name) && lk.Index == v && k == ':' {
+					colon = true
+				}
+				if ix, isIx := cmp.X.(*ssa.Index); isIx && ix.X == ssa.Value(name) && ix.Index == v && k == ':' {
+					colon = true
+				}
+				if _, isPhi := cmp.X.(*ssa.Phi); isPhi && k == 0 {
+					depth0 = true
+				}
+			}
+		}
+		if !colon {
+			bad = "a position is returned at which the name is not known to have a ':'"
+		}
+		if !depth0 {
+			braces = false
+		}
+	}
+	switch {
+	case bad != "":
+		c.violate(rule, key, g.Pos(), fnName(g), bad)
+	case n == 0:
+		c.violate(rule, key, g.Pos(), fnName(g), "never returns a position")
+	case !braces:
+		c.notDecided(rule, key, g.Pos(), "the colon found is not visibly one outside braces")
+	default:
+		c.hold(rule, key, g.Pos(), "returns -1 or the position of a ':' found at brace depth 0")
 	}
 }
